@@ -573,4 +573,146 @@ theorem Conc.run_visible {c : Conc K B V} {T : Tree K B V} (sched : List Nat) (h
     · have hother := Conc.step_other c t tid (fun hh => ht hh.symm)
       exact ih hC' (by rw [hev, h1]) (hlinks b p hl) (hle b x hx) (by rw [hother]; exact hr) hk hb hV
 
+/-! ### a commit that has returned is published (any number of committers) -/
+
+theorem Committer.stepPc_done {sc : SC K B V} {m : Committer K B V} {b : Bool} (h : m.stepPc sc = .done b) :
+    (m.pc = .linkcheck ∧ (sc.links.get m.hash).2.isSome = true) ∨ m.pc = .publish ∨ m.pc = .done b := by
+  cases hpc : m.pc with
+  | start => unfold Committer.stepPc at h; rw [hpc] at h; cases h
+  | linkcheck =>
+    unfold Committer.stepPc at h; rw [hpc] at h; simp only at h
+    cases hl : (sc.links.get m.hash).2 with
+    | some _ => exact .inl ⟨rfl, rfl⟩
+    | none => rw [hl] at h; simp only at h; unfold CPc.next at h; cases hw : m.writes <;> rw [hw] at h <;> cases h
+  | keyGet t =>
+    unfold Committer.stepPc at h; rw [hpc] at h
+    cases t with
+    | nil => cases h
+    | cons a t => cases h
+  | keyAdd fr t =>
+    unfold Committer.stepPc at h; rw [hpc] at h
+    cases t with
+    | nil => cases h
+    | cons a t => cases fr <;> cases h
+  | keyPut fr t =>
+    unfold Committer.stepPc at h; rw [hpc] at h
+    cases t with
+    | nil => cases h
+    | cons a t => simp only at h; unfold CPc.next at h; cases t <;> cases h
+  | publish => exact .inr (.inl rfl)
+  | done b' => unfold Committer.stepPc at h; rw [hpc] at h; cases h; exact .inr (.inr rfl)
+
+/-- what a scheduler step does to the thread it steps, when that thread is a committer -/
+theorem Conc.step_committer (c : Conc K B V) (t : Nat) (m : Committer K B V)
+    (h : c.threads[t]? = some (Thread.committer m)) :
+    (c.step t = c) ∨
+    (m.pc = .start ∧ (c.step t).sc = c.sc ∧ (c.step t).threads[t]? = some (Thread.committer { m with pc := .linkcheck })) ∨
+    ((c.step t).sc = m.stepSC c.sc ∧
+      (c.step t).threads[t]? = some (Thread.committer { m with pc := m.stepPc c.sc })) := by
+  have hlt := getElem?_lt h
+  have hself : ∀ x : Thread K B V, (setNth c.threads t x)[t]? = some x := by
+    intro x; rw [getElem?_setNth]; simp [hlt]
+  cases hpc : m.pc with
+  | done b =>
+    left; unfold Conc.step; rw [h]; simp only [hpc]
+  | start =>
+    cases hl : c.lock with
+    | some _ => left; unfold Conc.step; rw [h]; simp only [hpc, hl]
+    | none =>
+      right; left
+      have hs : c.step t = { c with lock := some t, threads := setNth c.threads t (.committer { m with pc := .linkcheck }) } := by
+        unfold Conc.step; rw [h]; simp only [hpc, hl]
+      rw [hs]; exact ⟨rfl, rfl, hself _⟩
+  | linkcheck =>
+    right; right
+    have hs : c.step t = { sc := m.stepSC c.sc, lock := (match m.stepPc c.sc with | .done _ => none | _ => c.lock), threads := setNth c.threads t (.committer { m with pc := m.stepPc c.sc }) } := by
+      unfold Conc.step; rw [h]; simp only [hpc, Committer.step]; rfl
+    rw [hs]; exact ⟨rfl, hself _⟩
+  | keyGet _ =>
+    right; right
+    have hs : c.step t = { sc := m.stepSC c.sc, lock := (match m.stepPc c.sc with | .done _ => none | _ => c.lock), threads := setNth c.threads t (.committer { m with pc := m.stepPc c.sc }) } := by
+      unfold Conc.step; rw [h]; simp only [hpc, Committer.step]; rfl
+    rw [hs]; exact ⟨rfl, hself _⟩
+  | keyAdd _ _ =>
+    right; right
+    have hs : c.step t = { sc := m.stepSC c.sc, lock := (match m.stepPc c.sc with | .done _ => none | _ => c.lock), threads := setNth c.threads t (.committer { m with pc := m.stepPc c.sc }) } := by
+      unfold Conc.step; rw [h]; simp only [hpc, Committer.step]; rfl
+    rw [hs]; exact ⟨rfl, hself _⟩
+  | keyPut _ _ =>
+    right; right
+    have hs : c.step t = { sc := m.stepSC c.sc, lock := (match m.stepPc c.sc with | .done _ => none | _ => c.lock), threads := setNth c.threads t (.committer { m with pc := m.stepPc c.sc }) } := by
+      unfold Conc.step; rw [h]; simp only [hpc, Committer.step]; rfl
+    rw [hs]; exact ⟨rfl, hself _⟩
+  | publish =>
+    right; right
+    have hs : c.step t = { sc := m.stepSC c.sc, lock := (match m.stepPc c.sc with | .done _ => none | _ => c.lock), threads := setNth c.threads t (.committer { m with pc := m.stepPc c.sc }) } := by
+      unfold Conc.step; rw [h]; simp only [hpc, Committer.step]; rfl
+    rw [hs]; exact ⟨rfl, hself _⟩
+
+/-- every committer thread that has returned has its block linked -/
+def DoneLinked (c : Conc K B V) : Prop :=
+  ∀ (tid : Nat) (m : Committer K B V) (b : Bool), c.threads[tid]? = some (Thread.committer m) → m.pc = .done b →
+    linkAt c.sc m.hash ≠ none
+
+theorem Conc.step_doneLinked {c : Conc K B V} {T : Tree K B V} (t : Nat) (hC : CInv c T) (hD : DoneLinked c)
+    (hev : (c.step t).sc.evictions = c.sc.evictions) : DoneLinked (c.step t) := by
+  obtain ⟨_, _, hlinks⟩ := Conc.step_inv t hC hev
+  have mono : ∀ b, linkAt c.sc b ≠ none → linkAt (c.step t).sc b ≠ none := by
+    intro b hb
+    cases hl : linkAt c.sc b with
+    | none => exact absurd hl hb
+    | some p => rw [hlinks b p hl]; simp
+  intro tid m b hm hdone
+  by_cases htt : tid = t
+  · subst htt
+    cases hold : c.threads[tid]? with
+    | none =>
+      have : c.step tid = c := by unfold Conc.step; rw [hold]
+      rw [this, hold] at hm; cases hm
+    | some th =>
+      cases th with
+      | reader r =>
+        have := Conc.step_reader_self c tid r hold
+        rw [this] at hm; cases hm
+      | committer m0 =>
+        rcases Conc.step_committer c tid m0 hold with hsame | ⟨_, _, hth⟩ | ⟨hsc, hth⟩
+        · rw [hsame] at hm ⊢; exact hD tid m b hm hdone
+        · rw [hth] at hm; cases hm; cases hdone
+        · rw [hth] at hm; cases hm
+          simp only at hdone
+          rcases Committer.stepPc_done hdone with ⟨hpc, hsome⟩ | hpc | hpc
+          · -- link check found the link: it is still there
+            apply mono
+            rw [LRU.get_snd] at hsome
+            unfold linkAt
+            cases hp : c.sc.links.peek m0.hash with
+            | none => rw [hp] at hsome; cases hsome
+            | some _ => simp
+          · -- publish: the link has just been added
+            rw [hsc]
+            have hs : m0.stepSC c.sc = { c.sc with links := (c.sc.links.add m0.hash m0.prev).1, evictions := c.sc.evictions + (c.sc.links.add m0.hash m0.prev).2.toNat } := by
+              unfold Committer.stepSC; rw [hpc]
+            have hne : (c.sc.links.add m0.hash m0.prev).2 = false := by
+              rw [hsc, hs] at hev
+              cases hb : (c.sc.links.add m0.hash m0.prev).2 with
+              | false => rfl
+              | true => simp [hb] at hev
+            rw [hs]; unfold linkAt; simp only
+            rw [LRU.add_peek _ _ _ _ hne]; simp
+          · exact mono _ (hD tid m0 b hold hpc)
+  · rw [Conc.step_other c t tid htt] at hm
+    exact mono _ (hD tid m b hm hdone)
+
+theorem Conc.run_doneLinked {c : Conc K B V} {T : Tree K B V} (sched : List Nat) (hC : CInv c T) (hD : DoneLinked c)
+    (hev : (c.run sched).sc.evictions = c.sc.evictions) : DoneLinked (c.run sched) := by
+  induction sched generalizing c T with
+  | nil => exact hD
+  | cons t rest ih =>
+    rw [Conc.run_cons] at hev ⊢
+    have h1 : (c.step t).sc.evictions = c.sc.evictions :=
+      Nat.le_antisymm (by rw [← hev]; exact Conc.run_ev_le _ _) (Conc.step_ev_le c t)
+    obtain ⟨hC', _, _⟩ := Conc.step_inv t hC h1
+    exact ih hC' (Conc.step_doneLinked t hC hD h1) (by rw [hev, h1])
+
+
 end Verif.SC
